@@ -32,6 +32,7 @@ type Contract struct {
 	Ats      map[string][]Clause // call-site assertions keyed "Name#k"
 	Loops    map[int][]Clause // invariants by loop ordinal (1-based, source order of loop headers)
 	LoopMod  map[int][]string
+	LoopAssume map[int][]Clause // assumed (NOT proved) facts at a loop head; each is listed in the evidence
 	Interf   []Interference
 	Options  map[string]string
 	Assumed  bool   // trusted contract: used at call sites, not verified against a body
@@ -198,7 +199,7 @@ func (db *ContractDB) parseContractText(file, text, defaultPkg string) error {
 			}
 		case "func":
 			key := strings.TrimSpace(c.rest)
-			cur = &Contract{Pkg: pkg, FuncKey: key, Ats: map[string][]Clause{}, Loops: map[int][]Clause{}, LoopMod: map[int][]string{}, Options: map[string]string{}, File: file, Line: c.line}
+			cur = &Contract{Pkg: pkg, FuncKey: key, Ats: map[string][]Clause{}, Loops: map[int][]Clause{}, LoopAssume: map[int][]Clause{}, LoopMod: map[int][]string{}, Options: map[string]string{}, File: file, Line: c.line}
 			if old, dup := db.Contracts[pkg+"::"+key]; dup {
 				return fmt.Errorf("%s:%d: duplicate contract for %s (also %s:%d)", file, c.line, key, old.File, old.Line)
 			}
@@ -264,6 +265,12 @@ func (db *ContractDB) parseContractText(file, text, defaultPkg string) error {
 				for _, it := range splitTop(rest) {
 					cur.LoopMod[n] = append(cur.LoopMod[n], strings.TrimSpace(it))
 				}
+			case "assume":
+				cl, err := mkClause(rest, c.line)
+				if err != nil {
+					return err
+				}
+				cur.LoopAssume[n] = append(cur.LoopAssume[n], cl)
 			default:
 				return fmt.Errorf("%s:%d: unknown loop clause %s", file, c.line, f[1])
 			}
